@@ -101,6 +101,13 @@ def run(harnesses, repo='/repo', jobs=8, timeout=3600, playback=True):
     for h in harnesses:
         cmd += ['--harness', h]
     res = dict(status='ok', results={}, playback={}, cmd=' '.join(cmd), reason=None, checks={})
+    # concurrent checks share one Kani build directory: cargo would make them wait for its lock INSIDE the time limit.
+    # Take our own lock first, so the limit measures Kani's work on this property only.
+    import fcntl
+    os.makedirs(CACHE, exist_ok=True)
+    lockf = open(os.path.join(CACHE, 'kani.lock'), 'w')
+    fcntl.flock(lockf, fcntl.LOCK_EX)
+    res['waited_for_lock_s'] = round(time.time() - t0, 1)
     try:
         p = subprocess.run(cmd, cwd=work, env=env, stdout=subprocess.PIPE, stderr=subprocess.STDOUT, text=True, timeout=timeout)
     except subprocess.TimeoutExpired as e:
@@ -110,6 +117,7 @@ def run(harnesses, repo='/repo', jobs=8, timeout=3600, playback=True):
     out = p.stdout
     res['log'] = out[-6000:]
     res['time_s'] = round(time.time() - t0, 1)
+    # (the lock is held until the playback runs below are done: released when lockf goes out of scope)
     failed = set(re.findall(r'Verification failed for - (\S+)', out))
     m = re.search(r'Complete - (\d+) successfully verified harnesses, (\d+) failures, (\d+) total', out)
     if not m:
